@@ -32,12 +32,19 @@ SITES = {
     "stratified_permutationtest": ("stratified", "stratified_permutationtest", "reps", "tst", {"tst_fun"}, [(1, [])]),
     "stratified_two_sample": ("stratified", "stratified_two_sample", "reps", "observed_tst", {"tst_fun"}, [(1, []), (0, [("hits", "CGe")])]),
     "simulate_ts_dist": ("irr", "simulate_ts_dist", "num_perm", "obs_ts", {"compute_ts"}, [(1, []), (0, [("geq", "CGe")])]),
+    # the per-test stores `for c in range(len(test)): tv[c].append(test[c](data_copy))` count as ONE store of the vector-valued
+    # statistic (for every fixed test c the loop is [SDraw; SStore StatNow] with value d = test[c] on the d-th rearrangement)
+    "sim_npc": ("npc", "sim_npc", "reps", "ts", {"test[c]"}, [(1, [])]),
+    "westfall_young": ("npc", "westfall_young", "reps", "ts", {"test[c]"}, [(1, [])]),
 }
 BY_PROP = {
-    "C05": ["two_sample_core", "one_sample", "corr", "k_sample", "bivariate_k_sample", "sim_corr", "stratified_permutationtest", "stratified_two_sample", "simulate_ts_dist"],
+    "C05": ["two_sample_core", "one_sample", "corr", "k_sample", "bivariate_k_sample", "sim_corr", "stratified_permutationtest", "stratified_two_sample", "simulate_ts_dist",
+            "sim_npc", "westfall_young"],
     "C01": ["two_sample_core", "one_sample", "corr", "k_sample"],
     "C02": ["bivariate_k_sample", "sim_corr", "stratified_permutationtest", "stratified_two_sample"],
     "C18": ["simulate_ts_dist"],
+    "C07": ["sim_npc"],
+    "C10": ["westfall_young"],
 }
 
 
@@ -187,6 +194,18 @@ def stmt(node, cx):
             and isinstance(node.body[0].value, ast.Constant) and node.body[0].value.value == 1 and not isinstance(node.body[0].value.value, bool):
         pre, e, op = compare(node.test, cx)
         return pre + [f"SCount {counter_index(node.body[0].target.id, cx)} {e} {op}"]
+    if isinstance(node, ast.For) and not node.orelse and isinstance(node.target, ast.Name) and ast.unparse(node.iter) == "range(len(test))" and len(node.body) == 1:
+        # for c in range(len(test)): tv[c].append(test[c](data_copy))   -- one store of the vector of test statistics
+        b = node.body[0]; cv = node.target.id
+        want = f"tv[{cv}].append(test[{cv}](data_copy))"
+        if isinstance(b, ast.Expr) and ast.unparse(b.value) == want and "test[c]" in cx.stats and cv == "c":
+            if cx.dist not in (None, "tv"):
+                raise Unsupported(f"{cx.site}: two stores {cx.dist} / tv")
+            cx.dist = "tv"; cx.store_kind = "per-test-append"
+            if cx.stat_text is not None:
+                raise Unsupported(f"{cx.site}: a second evaluation of the test statistics in one repetition")
+            cx.stat_text = want
+            return ["SStore StatNow"]
     raise Unsupported(f"{cx.site}: loop statement not understood: {ast.unparse(node)[:120]}")
 
 
@@ -236,10 +255,12 @@ def loops_of(fn, site, reps, ref, stats):
         for idx, st in enumerate(block):
             if isinstance(st, ast.For):
                 if not is_range_of(st.iter, reps):
-                    if mentions_range(st.iter) or any(n_draws(x) or has_stat(x, Ctx(site, reps, ref, stats, "")) for x in st.body):
-                        raise Unsupported(f"{site}: a loop that draws or evaluates the statistic is not over range({reps}): for ... in {ast.unparse(st.iter)}")
+                    if any(n_draws(x) for x in st.body):
+                        raise Unsupported(f"{site}: a loop that takes rearrangements is not over range({reps}): for ... in {ast.unparse(st.iter)}")
                     walk_block(st.body)
                     continue
+                if not any(n_draws(x) or has_stat(x, Ctx(site, reps, ref, stats, "")) for x in st.body):
+                    continue          # a loop over the stored values (no rearrangement, no statistic): not a repetition loop
                 if st.orelse or not isinstance(st.target, ast.Name):
                     raise Unsupported(f"{site}: for/else or a structured loop target")
                 cx = Ctx(site, reps, ref, stats, st.target.id)
@@ -253,6 +274,10 @@ def loops_of(fn, site, reps, ref, stats):
                 if cx.dist is not None:
                     v = init_before(block, idx, cx.dist)
                     txt = ast.unparse(v) if v is not None else None
+                    if cx.store_kind == "per-test-append":
+                        # tv[c] = [] for every test, in the loop over the tests that evaluates the observed statistics
+                        inits = [x for x in ast.walk(fn) if isinstance(x, ast.Assign) and ast.unparse(x) == "tv[c] = []"]
+                        txt = "[]" if len(inits) == 1 and v is not None and ast.unparse(v) == "{}" else None
                     ok = (txt in (f"np.empty({reps})", f"np.zeros({reps})") if cx.store_kind == "index" else txt == "[]")
                     if not ok:
                         raise Unsupported(f"{site}: {cx.dist} is initialised as {txt} before a loop that fills it by {cx.store_kind}")
@@ -265,7 +290,7 @@ def loops_of(fn, site, reps, ref, stats):
                 raise Unsupported(f"{site}: with/try block")
             else:
                 comps = [x for x in ast.walk(st) if isinstance(x, (ast.ListComp, ast.GeneratorExp, ast.SetComp, ast.DictComp))]
-                comps = [c for c in comps if any(mentions_range(g.iter) for g in c.generators) or n_draws(c) or has_stat(c, Ctx(site, reps, ref, stats, ""))]
+                comps = [c for c in comps if any(is_range_of(g.iter, reps) for g in c.generators) or n_draws(c) or has_stat(c, Ctx(site, reps, ref, stats, ""))]
                 if not comps:
                     if isinstance(st, ast.FunctionDef):
                         continue
